@@ -12,7 +12,7 @@ RULE = ("seeded maps as C06 plus tied maxima in non-rectangular arrangements, co
 ASSUMPTIONS = ["|values| <= 100, integral_patch_size >= 2", "refinement bound asserted for thresholds >= 0",
                "Gaussian-improvement claim checked per axis with tolerance 1e-3 px on isolated unit-amplitude bumps whose patch lies inside the map"]
 SHARDS = {"quick": 4, "thorough": 16}
-N = {"quick": 2400, "thorough": 60000}
+N = {"quick": 2400, "thorough": 360000}
 BUDGET = {"quick": 100, "thorough": 900}
 TIMEOUT = {"quick": 600, "thorough": 2400}
 SELF_SHARDED = True
